@@ -7,6 +7,7 @@ Record tcase := mkc {
   c_k : Z;                    (* which function *)
   c_sm : Z;                   (* 0 = _splitlines on str.splitlines (as found), 1 = split on LF only *)
   c_dm : Z;                   (* 0 = strftime, 1 = zero padded year *)
+  c_rm : Z;                   (* raw_text setter: 0 = writes the text before parsing it, 1 = parses first *)
   c_args : list (list Z);
   c_exp : list (list Z) }.
 
@@ -41,6 +42,7 @@ Section Hist.
   Variable format : V -> str.
   Variable dec : list Z -> V.
   Variable enc : V -> list (list Z).
+  Variable pf : bool.
   Definition enc_tok (t : tok V) (r : res unit) : list (list Z) :=
     [match r with Ok _ => 0 | Err e => exn_code e end] :: t_raw t :: enc (t_val t).
   Fixpoint hist_steps (t : tok V) (ops : list (Z * list Z)) : list (list Z) :=
@@ -48,7 +50,7 @@ Section Hist.
     | [] => []
     | (k, p) :: r =>
       let o := if k =? 0 then SetRaw p else SetValue (dec p) in
-      let '(t', rr) := sv_step parse format t o in
+      let '(t', rr) := sv_step parse format pf t o in
       enc_tok t' rr ++ hist_steps t' r
     end.
   Definition hist (init_kind : Z) (p : list Z) (ops : list (Z * list Z)) : list (list Z) :=
@@ -62,38 +64,39 @@ End Hist.
 
 Definition enc_btok (t : btok) (r : res unit) : list (list Z) :=
   [[match r with Ok _ => 0 | Err e => exn_code e end]; b_raw t; b_value t; b_indent t].
-Fixpoint bhist_steps (m : split_mode) (t : btok) (ops : list (Z * list Z)) : list (list Z) :=
+Fixpoint bhist_steps (m : split_mode) (pf : bool) (t : btok) (ops : list (Z * list Z)) : list (list Z) :=
   match ops with
   | [] => []
   | (k, p) :: r =>
     let o := if k =? 0 then BSetRaw p else if k =? 1 then BSetValue p else BSetIndent p in
-    let '(t', rr) := b_step m t o in
-    enc_btok t' rr ++ bhist_steps m t' r
+    let '(t', rr) := b_step m pf t o in
+    enc_btok t' rr ++ bhist_steps m pf t' r
   end.
-Definition bhist (m : split_mode) (init_kind : Z) (p ind : list Z) (ops : list (Z * list Z)) : list (list Z) :=
+Definition bhist (m : split_mode) (pf : bool) (init_kind : Z) (p ind : list Z) (ops : list (Z * list Z)) : list (list Z) :=
   if init_kind =? 0 then
     match b_from_raw_text m p with
-    | Ok t => enc_btok t (Ok tt) ++ bhist_steps m t ops
+    | Ok t => enc_btok t (Ok tt) ++ bhist_steps m pf t ops
     | Err e => [[exn_code e]]
     end
-  else let t := b_from_value m ind p in enc_btok t (Ok tt) ++ bhist_steps m t ops.
+  else let t := b_from_value m ind p in enc_btok t (Ok tt) ++ bhist_steps m pf t ops.
 
-Definition run_hist (sm dm : Z) (args : list (list Z)) : list (list Z) :=
+Definition run_hist (sm dm rm : Z) (args : list (list Z)) : list (list Z) :=
   let cls := nth 0 (arg args 0) 0 in
   let ik := nth 1 (arg args 0) 0 in
   let p := arg args 1 in
   let ind := arg args 2 in
   let ops := pair_ops (skipn 3 args) in
-  if cls =? 1 then hist string_parse string_format (fun x => x) enc_str ik p ops
-  else if cls =? 2 then hist inline_parse inline_format (fun x => x) enc_str ik p ops
-  else if cls =? 3 then hist tag_parse tag_format (fun x => x) enc_str ik p ops
-  else if cls =? 4 then hist link_parse link_format (fun x => x) enc_str ik p ops
-  else if cls =? 5 then hist metakey_parse metakey_format (fun x => x) enc_str ik p ops
-  else if cls =? 6 then hist simple_parse simple_format (fun x => x) enc_str ik p ops
-  else if cls =? 7 then bhist (smode sm) ik p ind ops
-  else if cls =? 8 then hist date_parse (date_format (dmode dm)) dec_date enc_date ik p ops
-  else if cls =? 9 then hist number_parse number_format dec_num enc_num ik p ops
-  else if cls =? 10 then hist bool_parse bool_format dec_bool enc_bool ik p ops
+  let pf := negb (rm =? 0) in
+  if cls =? 1 then hist string_parse string_format (fun x => x) enc_str pf ik p ops
+  else if cls =? 2 then hist inline_parse inline_format (fun x => x) enc_str pf ik p ops
+  else if cls =? 3 then hist tag_parse tag_format (fun x => x) enc_str pf ik p ops
+  else if cls =? 4 then hist link_parse link_format (fun x => x) enc_str pf ik p ops
+  else if cls =? 5 then hist metakey_parse metakey_format (fun x => x) enc_str pf ik p ops
+  else if cls =? 6 then hist simple_parse simple_format (fun x => x) enc_str pf ik p ops
+  else if cls =? 7 then bhist (smode sm) pf ik p ind ops
+  else if cls =? 8 then hist date_parse (date_format (dmode dm)) dec_date enc_date pf ik p ops
+  else if cls =? 9 then hist number_parse number_format dec_num enc_num pf ik p ops
+  else if cls =? 10 then hist bool_parse bool_format dec_bool enc_bool pf ik p ops
   else [[-99]].
 
 Definition model_out (c : tcase) : list (list Z) :=
@@ -134,7 +137,7 @@ Definition model_out (c : tcase) : list (list Z) :=
   else if k =? 32 then enc_lex (lex_null a0)
   else if k =? 33 then enc_res enc_str (simple_parse a0)
   else if k =? 34 then [simple_format a0]
-  else if k =? 40 then run_hist (c_sm c) (c_dm c) a
+  else if k =? 40 then run_hist (c_sm c) (c_dm c) (c_rm c) a
   else [[-99]].
 
 Definition check_case (c : tcase) : bool := list_eqb (list_eqb Z.eqb) (model_out c) (c_exp c).
